@@ -99,7 +99,7 @@ class BaseGopherProtocol:
             self.filenotfound(str(e))
         except IOError as e:
             GopherExceptions.log(e, self, None)
-            self.filenotfound(e.strerror)
+            self.filenotfound(e.strerror or str(e))
 
     def filenotfound(self, msg: str):
         self.wfile.write(
